@@ -1,9 +1,118 @@
-(* C04 -- lemmas about the ballotbox model. *)
+(* C04 -- the theorems about the ballotbox model, instantiated with the constants regenerated from the Go source. *)
 From Coq Require Import ZArith List Bool String Lia.
-From MV Require Import C04.Model.
+From MV Require Import C04.Model C04.PLib C04.POwn C04.PSound C04.PStep.
 From MV Require Gen.C04.
 Import ListNotations.
 Open Scope Z_scope.
 
-Lemma consts_ok : Gen.C04.max_threshold10 = 1000 /\ pf_get pfx = pf_new pfx /\ pf_new pfx = pf_clean pfx.
-Proof. repeat split; reflexivity. Qed.
+Lemma consts_ok :
+  Gen.C04.max_threshold10 = 1000 /\ pf_get pfx = pf_new pfx /\ pf_clean pfx = pf_new pfx /\ pf_new pfx <> EmptyString.
+Proof. repeat split; try reflexivity. discriminate. Qed.
+
+Definition Hnc4 : pf_clean pfx = pf_new pfx := proj1 (proj2 (proj2 consts_ok)).
+Definition Hne4 : pf_new pfx <> EmptyString := proj2 (proj2 (proj2 consts_ok)).
+
+(* the sign facts handed to Vote / VoteSignFact, and the voteproofs that came embedded in ballots *)
+Definition voted_sfs (ops : list op) : list signfact :=
+  flat_map (fun o => match o with OVote bl _ => [b_sf bl] | _ => [] end) ops.
+Definition embedded (ops : list op) : list vproof :=
+  flat_map (fun o => match o with
+                     | OVote bl _ => match b_vp bl with Some v => [v] | None => [] end
+                     | OForward _ v => [v]
+                     | _ => []
+                     end) ops.
+
+(* what Ballot.IsValid(networkID) guarantees about the ballots handed to Vote: no expel target twice, a ballot with
+   expels carries a voteproof, the embedded voteproof is well formed (Voteproof.IsValid) *)
+Definition input_ok (o : op) : Prop :=
+  match o with
+  | OVote bl _ => NoDup (map e_node (b_ex bl)) /\ (b_ex bl <> [] -> b_vp bl <> None) /\
+                  (forall v, b_vp bl = Some v -> vp_wellformed v = true)
+  | OForward _ v => vp_wellformed v = true
+  | _ => True
+  end.
+
+Definition emitted (e : env) (ops : list op) (v : vproof) : Prop :=
+  exists x, In x (snd (run pfx e box_init ops)) /\ In v (o_vps x).
+
+Definition suffrage_of (e : env) (v : vproof) : option suffrage := aget (safe_prev (sp_h (v_sp v))) (en_sufs e).
+
+Lemma emitted_ok e ops v :
+  Forall input_ok ops -> emitted e ops v ->
+  exists s, suffrage_of e v = Some s /\ vp_wellformed v = true /\ vp_valid_suf v s = true /\
+            ((forall sf, In sf (v_sfs v) -> In sf (voted_sfs ops)) \/ In v (embedded ops)).
+Proof.
+  intros IN [x [X V]].
+  set (Psf := fun sf => In sf (voted_sfs ops)). set (Pvp := fun v => In v (embedded ops)).
+  assert (OK : Forall (op_ok Psf Pvp) ops).
+  { apply Forall_forall. intros o O. rewrite Forall_forall in IN. specialize (IN o O).
+    destruct o; simpl in *; auto.
+    - destruct IN as [A [B C]]. unfold ballot_ok. split; [|split; [auto|split; auto]].
+      + unfold Psf, voted_sfs. apply in_flat_map. exists (OVote bl get). split; simpl; auto.
+      + intros v0 E. split; auto. unfold Pvp, embedded. apply in_flat_map. exists (OVote bl get).
+        split; auto. rewrite E. simpl; auto.
+    - split; auto. unfold Pvp, embedded. apply in_flat_map. exists (OForward i v0). split; simpl; auto. }
+  destruct (run_ok pfx Hnc4 Hne4 e Psf Pvp ops box_init (ginv_init pfx e Psf Pvp) OK) as [_ R].
+  destruct (R x X v V) as [s [A [B [C D]]]]. exists s. auto.
+Qed.
+
+Lemma emitted_point_voted e ops v :
+  Forall input_ok ops -> emitted e ops v ->
+  ((exists sf, In sf (v_sfs v)) /\
+   forall sf, In sf (v_sfs v) -> In sf (voted_sfs ops) /\ f_sp (sf_fact sf) = v_sp v) \/
+  In v (embedded ops).
+Proof.
+  intros IN EM. destruct (emitted_ok e ops v IN EM) as [s [_ [W [_ [P|P]]]]]; auto. left.
+  destruct (wellformed_signers v W) as [_ [SP NE]]. split.
+  - destruct (v_sfs v) as [|sf l]; [contradiction|]. exists sf; simpl; auto.
+  - intros sf X. split; auto.
+Qed.
+
+Lemma emitted_signfacts e ops v :
+  Forall input_ok ops -> emitted e ops v ->
+  exists s, suffrage_of e v = Some s /\ NoDup (map sf_node (v_sfs v)) /\
+            forall sf, In sf (v_sfs v) ->
+              suf_exists_pub (sf_node sf) (sf_pub sf) s = true /\ f_sp (sf_fact sf) = v_sp v.
+Proof.
+  intros IN EM. destruct (emitted_ok e ops v IN EM) as [s [S [W [V _]]]]. exists s. split; auto.
+  destruct (wellformed_signers v W) as [ND [SP _]]. split; auto.
+  intros sf X. split; auto. eapply valid_members; eauto.
+Qed.
+
+Lemma emitted_recount e ops v :
+  Forall input_ok ops -> emitted e ops v -> v_kind v <> VStuck ->
+  exists s q th, suffrage_of e v = Some s /\ validator_count v s = Some (q, th) /\
+                 result_matches (tally q th (sf_ids (v_sfs v))) (v_maj v).
+Proof.
+  intros IN EM K. destruct (emitted_ok e ops v IN EM) as [s [S [_ [V _]]]].
+  destruct (valid_recount v s V K) as [q [th [A B]]]. exists s, q, th. auto.
+Qed.
+
+(* ---------------------------------------------------------------- non-vacuity: a concrete history *)
+
+Definition x_sp : spoint := mkSP 33 0 INIT.
+Definition x_env : env := mkEnv 0 670 [(32, [(0, 0); (1, 1); (2, 2)])].
+Definition x_expel : expel := mkExpel 9 2 32 34 [(0, 0); (1, 1)].
+Definition x_fact : fact := mkFact 1 x_sp KInit [9].
+Definition x_prev : vproof :=
+  mkVP 5 (mkSP 32 0 ACCEPT) 670 None [mkSF 0 0 (mkFact 7 (mkSP 32 0 ACCEPT) KAccept [])] [] VPlain.
+Definition x_ballot (n : Z) : ballot := mkBallot (mkSF n n x_fact) (Some x_prev) [x_expel] true.
+Definition x_ops : list op :=
+  [OLearn 32; OVote (x_ballot 0) None; OVote (x_ballot 1) None; OCount 0 false None (Some 0)].
+
+Lemma x_input_ok : Forall input_ok x_ops.
+Proof.
+  repeat constructor; simpl; auto; try (intros; discriminate);
+    try (intros v H; inversion H; subst; reflexivity); try (intros [|]; contradiction).
+Qed.
+
+Lemma x_emits :
+  exists v, emitted x_env x_ops v /\ v_kind v = VExpel /\ v_sp v = x_sp /\
+            option_map f_id (v_maj v) = Some 1 /\ map sf_node (v_sfs v) = [0; 1].
+Proof.
+  eexists. split.
+  - unfold emitted. eexists. split.
+    + vm_compute. right. right. right. left. reflexivity.
+    + simpl. left. reflexivity.
+  - vm_compute. repeat split.
+Qed.
